@@ -626,6 +626,27 @@ func init() {
 		c := apiBytesEq(e, fn, a).(*sym.Term)
 		return e.tb.Ite(c, e.tb.Const(64, 1), e.tb.Const(64, 0))
 	})
+	// subtle.XORBytes(dst, x, y): dst[i] = x[i] ^ y[i] for i < min(len(x), len(y)); panics if dst is shorter
+	xorBytes := func(e *Exec, fn *ssa.Function, a []Value) Value {
+		d, x, y := a[0].(Slice), a[1].(Slice), a[2].(Slice)
+		n := x.Len
+		if y.Len < n {
+			n = y.Len
+		}
+		if n == 0 {
+			return e.tb.Const(64, 0)
+		}
+		if d.Len < n {
+			e.definitePanic("subtle", "subtle.XORBytes: dst too short")
+		}
+		xb, yb := e.bytesOf(x), e.bytesOf(y)
+		for i := 0; i < n; i++ {
+			e.setCell(d.Obj, d.Off+i*d.Stride, e.tb.Xor(xb[i], yb[i]))
+		}
+		return e.tb.Const(64, uint64(n))
+	}
+	reg("crypto/subtle.XORBytes", xorBytes)
+	reg("crypto/internal/fips140/subtle.XORBytes", xorBytes)
 	reg("encoding/hex.EncodeToString", func(e *Exec, fn *ssa.Function, a []Value) Value {
 		s := a[0].(Slice)
 		if s.Len == 0 {
